@@ -132,6 +132,42 @@ NEEDS = {
     "C19-r3-2": "multi-threaded simulation dropped while the driver thread is unwinding (early return skips join and cancellation)",
     "C20-r3-1": "> 512 live entries, a full drain, new inserts, then an extract through a retained old key (release_if_drained resets next_epoch)",
     "C20-r3-2": "insert A(k), insert B(k), insert C(<k) (cached front pair demoted with a fresh epoch)",
+    "C01-r4-1": "something (another thread, a scheduling Clock) calls Scheduler::schedule* during the final clock wait of a step_until that ends with nothing due (time committed only after the sync, outside the lock)",
+    "C01-r4-2": "Scheduler::schedule(now, action) or schedule(Duration::ZERO, action) with a pre-built action (new helper checked_deadline rejects only time < now)",
+    "C02-r4-1": "Output with >= 3 connections one of them filtered: a broadcast passing the filter, then one filtered out that meets a full mailbox (completion counted over all output slots, stale slot counted as done)",
+    "C02-r4-2": "Output with exactly two connections, the first-connected recipient's mailbox full, the second with room (new PairBroadcastFuture returns Ready without checking the first)",
+    "C03-r4-1": "Output with >= 2 accepting connections, an earlier broadcast on it, then a broadcast where one mailbox is full (slot clearing moved to the query path only)",
+    "C03-r4-2": "connect through a port handle, then clone it, then send through the clone (hand-written Clone tags the stale cache with the current shared epoch)",
+    "C04-r4-1": "Output with >= 2 connections, one earlier completed broadcast, then a saturated target mailbox (slots cleared only when the future was cancelled)",
+    "C04-r4-2": "mailbox capacity >= 2, two sends blocked on it, the receiver popping twice before the first woken sender re-pushes (notify only if the queue was full)",
+    "C05-r4-1": "a task cancelled during a poll, no other wake in that poll, and a wake landing during the future's drop (runnable_exists without the CLOSED term + Task::wake gated on it)",
+    "C05-r4-2": "cancel of an idle task racing a wake of the same task within a few nanoseconds (load then unconditional fetch_xor fast path)",
+    "C06-r4-1": "a bench with sub-models and a stall in a sub-model or its parent (observers paired with model_names by position: orders differ)",
+    "C06-r4-2": "a sender that blocks on a full mailbox and later resumes (slow path no longer counts the message: negative count / missed deadlock)",
+    "C07-r4-1": ">= 2 origins with events at the same time, the origin with >= 2 events not sorting first (current_key no longer advances to the next origin)",
+    "C07-r4-2": "a periodic event and a same-origin event scheduled between two occurrences for the time of the later one (in-place re-arm keeps the old epoch)",
+    "C08-r4-1": "a Scheduler::schedule* call from another thread during the final clock wait of step_until (time write moved into a post-sync helper, outside the lock)",
+    "C08-r4-2": "Scheduler::schedule with a pre-built keyed periodic action of zero period (period() default not overridden for the keyed variant)",
+    "C09-r4-1": "a cancelled EventSource keyed action at position >= 3 of a same-time batch from the global scheduler (inner loop peeks the raw queue)",
+    "C09-r4-2": "a keyed periodic occurrence already in the mailbox, cancelled by an earlier event of the same model at the same time (key checked only when spawning)",
+    "C10-r4-1": "more coinciding same-origin periodic actions than the target mailbox holds (SeqFuture advances before polling)",
+    "C10-r4-2": "a cancelled keyed action still at the head of the queue ahead of a periodic occurrence, time advanced with step_until (idle fast path treats a cancelled head as idle)",
+    "C11-r4-1": "a panic or failed send raised by a model that owns sub-models (ModelId taken before build())",
+    "C11-r4-2": "clock tolerance, step_until with an empty queue, lag above the tolerance, then any further call (third copy of the tolerance block omits is_terminated)",
+    "C12-r4-1": "mailbox closed (or closed and drained) and len() read at equal indices (carry test rewritten without masking the closed flag)",
+    "C12-r4-2": "capacity >= 2 and >= 2 senders waiting at once (notify_one only when the queue was full when popped)",
+    "C13-r4-1": "cancel during a poll that returns Pending with no further wake, and the last handle released in that window (runnable_exists without the CLOSED term)",
+    "C13-r4-2": "a task polled once, CancelToken dropped without cancel, no Promise, then the single waker consumed with wake() (sole-handle fast path drops instead of scheduling)",
+    "C14-r4-1": ">= 2 accepting repliers, a reply iterator dropped before it was drained, then a sub-future pending at first poll (slots cleared only for cancelled futures)",
+    "C14-r4-2": "a clone with an out-of-date list sending while another clone holds the shared lock for its own refresh (try_lock failure returns the stale cache)",
+    "C15-r4-1": "cross-thread schedule_periodic_event racing a step (time read and deadline check hoisted above the queue lock in that sibling only)",
+    "C15-r4-2": "clock tolerance, step_until to a target with nothing due, lag above the tolerance on that final sync (time rolled back after it was published)",
+    "C16-r4-1": "a panic or missing recipient in a model that owns sub-models (ModelId taken before build())",
+    "C16-r4-2": "a sub-model whose name starts with its parent's qualified name, e.g. pump / pump_controller (prefix test without separator skips qualification)",
+    "C17-r4-1": "a zero-sized event type and more than `capacity` writes between reads (bound taken from VecDeque::capacity(), usize::MAX for ZSTs)",
+    "C17-r4-2": "a partial read that leaves events pending, then enough writes to overflow (reader-side batch invisible to the capacity check)",
+    "C18-r4-1": "step_until ending on the no-more-events branch with a concurrent schedule call during the final sync (sync before the time write, lock dropped)",
+    "C18-r4-2": "a tolerated lag followed by events scheduled within that lag (catch-up fast path skips the clock)",
     "C19-2": "output with >= 2 connections, a full target mailbox, simulation dropped while the broadcast is pending (ManuallyDrop not released)",
 }
 
@@ -150,7 +186,7 @@ def _needs_from_notes(d):
 def main():
     os.makedirs(DST, exist_ok=True)
     n = 0
-    for cj in sorted(glob.glob(os.path.join(SRC, "C*", "*", "confirm.json")) + glob.glob(os.path.join("/tmp/mutout2", "C*", "*", "confirm.json")) + glob.glob(os.path.join("/tmp/mutout3", "C*", "*", "confirm.json"))):
+    for cj in sorted(glob.glob(os.path.join(SRC, "C*", "*", "confirm.json")) + glob.glob(os.path.join("/tmp/mutout2", "C*", "*", "confirm.json")) + glob.glob(os.path.join("/tmp/mutout3", "C*", "*", "confirm.json")) + glob.glob(os.path.join("/tmp/mutout4", "C*", "*", "confirm.json"))):
         d = os.path.dirname(cj)
         c = json.load(open(cj))
         sid = c["id"]
@@ -173,7 +209,7 @@ def main():
             "breaks_property": sid.split("-")[0],
             "files_changed": files,
             "needs_to_manifest": NEEDS.get(sid, old.get("needs_to_manifest") or _needs_from_notes(d)),
-            "round": 3 if "-r3-" in sid else (2 if "-r2-" in sid else 1),
+            "round": 4 if "-r4-" in sid else (3 if "-r3-" in sid else (2 if "-r2-" in sid else 1)),
             "demonstration": demos,
             "confirmed_by_me": {
                 "how": "tools/confirm_seed.sh on a scratch git worktree of /repo at %s (removed afterwards): git apply patch.diff; cargo build --workspace; "
